@@ -38,6 +38,11 @@ CLAIMED = {
             "A scripted upstream serves harness-encoded, ring-signed responses to the real DnssecDnsHandle (trust anchor = zone key) under the virtual clock (wall and monotonic in lock step). Soundness: Secure ⇒ the reference (RFC 4035 §5.3.1-3, RFC 1982) says Secure at that instant, at every step of a history incl. cache hits; completeness for the genuine response inside the window; Secure TTL ≤ min(original TTL, expiration − now). Every answer-section bit and every clock within 3 s of the window edges / ±2^31 points are swept for fixed scenarios.",
             "Trusts refm/val_ref.rs and ring. Three known findings (cached verdict outlives the signature window; cached TTL exceeds remaining lifetime; panic on RRSIG-covering-DNSKEY without a DNSKEY RR) are excluded by signature.",
             "DESIGN.md §7 C06"),
+    "C07": ("fault_enumeration",
+            "fault enumeration + property-based testing (proptest): for generated signed hierarchies every single tampering (position × operator) of every upstream response is enumerated, double faults sampled; oracle = validity predicate over the outcome against the genuine zone data and an own chain-status model",
+            "Generated hierarchies root → t. → l.t. (signed NSEC/NSEC3 or not, 1-3 keys, key-tag collisions, DS covering a subset of keys, unsigned islands) are served by hickory's own authoritative code through a scripted upstream to the real DnssecDnsHandle under the virtual clock. For every scenario every (response of the fault-free trace, section, record, operator ∈ 17 tampering operators) is applied; double faults (uniform, constructive, forged chain link, follow-up) are sampled. Secure ⇒ genuine zone data; a record of a model-Secure zone is never Insecure; under faults on a Secure chain the outcome is error/Bogus or the genuine outcome; fault-free completeness; through a real Catalog: AD ⇒ Secure genuine answer, Bogus ∧ CD=0 ⇒ SERVFAIL.",
+            "Honest data comes from hickory's own signer (TBS correctness is C05's). Ed25519 only; small hierarchies. Seven known findings (one signature per root cause in the validator) are excluded; any other deviation is a VIOLATION.",
+            "DESIGN.md §7 C07"),
     "C10": ("exploration",
             "property-based testing (proptest) + exhaustive RFC 4592 example sweep: generated zones × queries through the real Catalog, differential against an independent RFC 1034 §4.3.2 / RFC 4592 reference model",
             "Generated zones over a small universe (hosts, ENTs, wildcards at several depths, CNAME chains/loops, delegations with/without glue and DS, occluded data; unsigned / NSEC / NSEC3±opt-out) are rendered into hickory's InMemoryZoneHandler and, independently, into the harness's reference model; every query name in and around the zone × 9 qtypes × DO goes in as bytes through Request::from_bytes → Catalog::handle_request → ResponseHandle and the response is read by the harness's own wire reader. Compared: rcode, AA, answer set incl. in-zone CNAME chain and synthesised owners, no data from below a cut, referral shape, SOA on negatives, NXDOMAIN vs NODATA (ENT), RRSIG/denial presence with DO.",
@@ -48,6 +53,21 @@ CLAIMED = {
             "Catalogs with nested/sibling/root zones and chained handlers, allow/deny sets with nested v4/v6 prefixes, UDP/TCP; requests drawn from valid queries, every opcode, EDNS versions, QR=1, runts, QDCOUNT 0/2, garbage, byte mutations and random bytes go through VerifFrontDoor::handle. Responses sent must be 0 for runts/responses and exactly 1 otherwise with QR=1, the request's ID and (when it parsed) question; rcode within the set of codes whose condition holds; TXT marker = longest-suffix origin; no panic; a fixed probe still answered afterwards.",
             "Trusts refm/frontdoor_ref.rs (ACL model from the access.rs rustdoc). Where the statement fixes no precedence between gates the oracle accepts the set.",
             "DESIGN.md §7 C11"),
+    "C12": ("exploration",
+            "model-based property testing (proptest): histories of UPDATE messages applied through the real path and in lock step to an RFC 2136 reference interpreter; invariants over the zone after every message",
+            "Histories of 1..6 UPDATE messages whose prerequisite and update RRs cover every row of RFC 2136 tables 3.2.4 / 3.4.2.6 over a small universe (out-of-zone names, apex SOA/NS, serials near 2^31 and 2^32−1) go as TSIG-signed bytes through Request::from_bytes → ZoneHandler::update (journal attached), and in a high-volume mode through verify_prerequisites / pre_scan / update_records. After every message: accepted ⇔ model accepts; rejected ⇒ zone unchanged; accepted ⇒ content equals the model's; one SOA, ≥1 apex NS, no CNAME beside other data, name existence agrees; serial advanced (RFC 1982) ⇔ content changed.",
+            "Trusts refm/update_ref.rs (where RFC text and pseudocode disagree every allowed outcome is accepted, recorded as branch:* classes). Nine known findings (one per root cause) are attributed by re-running the model with exactly that deviating rule and excluded by signature; the history continues behind them.",
+            "DESIGN.md §7 C12"),
+    "C13": ("exploration",
+            "property-based testing (proptest) + exhaustive sweeps (every bit of 12 base requests, every MAC length): mutated signed requests through the real front door against an independent RFC 8945 MAC/time reference",
+            "UPDATE and AXFR requests signed by hickory's client side go through VerifFrontDoor → Catalog → SqliteZoneHandler under the virtual clock: 5 request kinds × 8 key sets × 3 HMAC algorithms × clock positions around the fudge window × 12 mutation families (bit flips, byte sets, count edits, TSIG field re-encodings, MAC truncation to every length, TSIG removed/duplicated/not last). Soundness: zone changed or zone data in the reply ⇒ the harness's own RFC 8945 digest over the received octets verifies at full length with a configured key and |now−time| ≤ fudge. Completeness: the unmodified request takes effect, its reply verifies with the client verifier, and every single-bit flip of the reply is rejected.",
+            "Trusts refm/tsig_ref.rs and ring's HMAC. Header ID, TSIG class/TTL, key-name case and octets after the last counted record are not covered by the MAC by design and modelled as such. Four known findings excluded by signature.",
+            "DESIGN.md §7 C13"),
+    "C14": ("fault_enumeration",
+            "crash-point enumeration: for generated update histories on an on-disk journal every journal row boundary is a stop point (exhaustive per history); recovery compared with whole-message boundary states; second-level stops sampled",
+            "C12 histories run on a SqliteZoneHandler with a journal file; a SQLite commit hook records the serial visible at every row commit. For every k ∈ 0..=rows the journal is copied, cut to k rows and recovered with recover_with_journal: recovery must succeed, the recovered zone must equal a whole-message boundary state not older than the last acknowledged message, its serial must not be below any serial visible before the stop, and the remaining history must continue identically. Stops inside the initial dump are their own class; a second stop during the continuation is enumerated for a sample.",
+            "A stop tears at row granularity (atomicity of one SQLite commit is trusted). Boundary states are snapshots of the running server (C12 decides separately that they are the RFC states). Three known findings (no transaction around the dump / a message's rows / the SOA row) are attributed by stop position; failures at boundaries stay VIOLATIONs.",
+            "DESIGN.md §7 C14"),
     "C15": ("exploration",
             "property-based testing (proptest): insert/get/clear histories with explicit instants under the virtual clock against a pure TTL-cache reference model",
             "Histories of ≤30 (thorough 40) operations over 3 queries with nanosecond times (steps of 0 / sub-second / seconds / jumps to the model's expiry ±{0,1 ns,0.5 s,1 s}) × TtlConfig built through its serde form (default / per-type, min>ttl, max<ttl, min=max, 0). Every hit must be the most recent cacheable insert, within its lifetime L, with every TTL = per-type clamped − ⌊elapsed⌋ floored at 0 and non-increasing; transient errors never come back. The hit ratio on certainly-live entries is measured (100 % in quick) so the check cannot go vacuous. clear/clear_query are exercised through CachingClient.",
